@@ -100,6 +100,94 @@ pub mod corpus {
 
 }
 
+mod introspect_support {
+    // Hand-written support for the generated introspection corpus.
+    pub use serde_json::json;
+    pub use simnet::idlref::*;
+    pub use xplore::Sink;
+    pub use zlink_core::idl;
+    pub use zlink_core::introspect::{CustomType, ReplyError, Type};
+
+    #[derive(zlink_core::introspect::CustomType)]
+    #[zlink(crate = "zlink_core")]
+    #[allow(dead_code)]
+    pub struct Inner {
+        pub v: u8,
+    }
+    #[derive(zlink_core::introspect::CustomType)]
+    #[zlink(crate = "zlink_core")]
+    #[allow(dead_code)]
+    pub enum InnerEnum {
+        On,
+        Off,
+    }
+    #[derive(zlink_core::introspect::Type)]
+    #[zlink(crate = "zlink_core")]
+    #[allow(dead_code)]
+    pub struct Anon {
+        pub n: i64,
+        pub label: Option<String>,
+    }
+    pub fn anon_expected() -> RType {
+        RType::Struct(vec![RField { comments: vec![], name: "n".into(), ty: RType::Int }, RField { comments: vec![], name: "label".into(), ty: RType::Optional(Box::new(RType::String)) }])
+    }
+
+    fn report(sink: &mut Sink<'_>, what: &str, class: &str, got: String, expect: String, ok: bool) {
+        if ok {
+            sink.pass(xplore::hash_of(&(what, class)));
+        } else {
+            sink.fail(format!("introspect:{class}"), format!("{what}: derived {got}, the Rust type says {expect}"), json!({"type": what, "check": class}));
+        }
+    }
+    pub fn check_type(sink: &mut Sink<'_>, what: &str, got: &idl::Type<'_>, expect: &RType) {
+        let l = lift_type(got);
+        report(sink, what, "wrong-type-description", format!("{l:?}"), format!("{expect:?}"), &l == expect);
+    }
+    pub fn check_custom(sink: &mut Sink<'_>, what: &str, got: &idl::CustomType<'_>, expect: &RMember) {
+        let iface = idl::Interface::new_owned("x.y", vec![], vec![got.clone()], vec![], vec![]);
+        let l = lift(&iface).members.pop();
+        report(sink, what, "wrong-custom-type-description", format!("{l:?}"), format!("{expect:?}"), l.as_ref() == Some(expect));
+    }
+    pub fn check_errors(sink: &mut Sink<'_>, what: &str, got: &[&idl::Error<'_>], expect: &[RMember]) {
+        let iface = idl::Interface::new_owned("x.y", vec![], vec![], got.iter().map(|e| (*e).clone()).collect(), vec![]);
+        let l = lift(&iface).members;
+        report(sink, what, "wrong-error-description", format!("{l:?}"), format!("{expect:?}"), l == expect);
+    }
+    /// An interface assembled from derived descriptions renders to text that parses back equal.
+    pub fn check_interface(sink: &mut Sink<'_>, what: &str, iface: &idl::Interface<'_>) {
+        let want = lift(iface);
+        let text = iface.to_string();
+        let node = if want.has_commented_variant() { ":custom-enum-with-commented-variant" } else { "" };
+        match idl::Interface::try_from(text.as_str()) {
+            Ok(p) => {
+                let got = lift(&p);
+                report(sink, what, &format!("interface-parses-back-differently{node}"), format!("{got:?}"), format!("{want:?}"), got == want);
+            }
+            Err(e) => sink.fail(format!("introspect:interface-text-not-parseable{node}"), format!("{what}: the assembled interface renders as `{}` which does not parse: {e}", simnet::show(text.as_bytes())), json!({"interface": what})),
+        }
+    }
+
+    #[allow(unused_imports, clippy::all)]
+    pub mod corpus {
+        use super::*;
+        include!(corpus_file!("introspect_corpus.rs"));
+    }
+}
+
+fn run_c16(tier: &str) -> i32 {
+    let mut rep = Report::new("C16", tier);
+    rep.rule = format!("generated corpus of {} derived types (structs with the Type and the CustomType derive over every supported field type: 20 leaf types, 11 wrappers/collections around every leaf, every pair of wrappers, depth-3 samples; 0..6 fields incl. raw identifiers; unit-variant enums; error enums with unit, struct and single-tuple variants; lifetimes; doc comments on types, fields and variants) compiled against /repo's derive macros; every derived TYPE / CUSTOM_TYPE / VARIANTS is compared deeply (names, order, Varlink types, comments) with the description the generator computes from its own model of the Rust type; interfaces assembled from derived descriptions are rendered and parsed back. Distinct = distinct (type, check) pairs", introspect_support::corpus::N_TYPES);
+    rep.assumptions = vec!["directly nested Option<Option<T>> has no Varlink spelling and is not generated; comment text is compared modulo surrounding whitespace; the mappings of Duration, paths, OsStr, network addresses and serde_json::Value are not asserted (the statement does not fix them)".into()];
+    rep.extra.insert("programs".into(), serde_json::json!(introspect_support::corpus::N_TYPES));
+    rep.require_goal("derived-type-checked");
+    let cfg = Config { max_wall: std::time::Duration::from_secs(600), ..Default::default() };
+    rep.add(sweep("introspect-corpus", introspect_support::corpus::CASES.len() as u64, &cfg, |i, s| {
+        s.goal("derived-type-checked");
+        (introspect_support::corpus::CASES[i as usize])(s)
+    }));
+    rep.finish()
+}
+
 fn run_c12(tier: &str) -> i32 {
     let mut rep = Report::new("C12", tier);
     rep.rule = format!("generated corpus of {} proxy methods in {} traits (every parameter list of length 0..2 over 11 parameter types, every type also in 3rd and 4th position; names with 1..4 words and digits; method and parameter renames; elided and explicit lifetimes; a generic parameter; plain / more / oneway; unit, owned and borrowed outputs), compiled against /repo's proxy macro; per method every combination of boundary argument values x call forms {{plain, chain_ start, chain extension}} x scripted replies {{success, declared error, undeclared error, EOF, 3 streamed items}}; the expected frame is built from the declaration by the generator. Distinct = distinct (method, check) pairs", proxy_support::corpus::N_METHODS, proxy_support::corpus::N_METHODS.div_ceil(12));
@@ -127,6 +215,7 @@ fn replay(path: &str) -> i32 {
     let class = v["class"].as_str().unwrap_or("");
     let st = match prop {
         "C12" => xplore::sweep_one("replay", idx, &Config { threads: 1, ..Default::default() }, |i, s| (proxy_support::corpus::CASES[i as usize])(s)),
+        "C16" => xplore::sweep_one("replay", idx, &Config { threads: 1, ..Default::default() }, |i, s| (introspect_support::corpus::CASES[i as usize])(s)),
         _ => {
             eprintln!("MACHINERY: no replay handler for `{prop}`");
             return 2;
@@ -149,6 +238,7 @@ fn main() {
     let tier = args.iter().position(|a| a == "--tier").and_then(|i| args.get(i + 1)).map(|s| s.as_str()).unwrap_or("quick").to_string();
     let code = match args.first().map(|s| s.as_str()) {
         Some("c12") => run_c12(&tier),
+        Some("c16") => run_c16(&tier),
         Some("--replay") => replay(args.get(1).map(|s| s.as_str()).unwrap_or("")),
         _ => {
             eprintln!("usage: corpus c12 [--tier quick|thorough] | --replay <file>");
